@@ -247,6 +247,13 @@ func init() {
 				Case{"doc": Doc{ch(Frac{140000, 1}), ch(Frac{140000, 1}), {Deg: "5", Sym: "7", Vals: []Frac{{1, 1}}}}, "flags": Flags{}, "tracks": 6},
 				Case{"doc": Doc{ch(Frac{140000, 1}), ch(Frac{139000, 1}), {Deg: "5", Sym: "9", Vals: []Frac{{1, 1}}}}, "flags": Flags{}, "tracks": 7},
 				Case{"doc": Doc{ch(Frac{1, 1}), rs(Frac{150000, 1}), rs(Frac{150000, 1})}, "flags": Flags{}})
+			// ... and to the tick: a silence / a chord of exactly 2^28 - 2, 2^28 - 1, 2^28 and 2^28 + 1 ticks of this binary's resolution
+			if T := refDivision(c); T > 0 {
+				for _, n := range []int{1<<28 - 2, 1<<28 - 1, 1 << 28, 1<<28 + 1} {
+					cases = append(cases, Case{"doc": Doc{rs(Frac{n, T}), ch(Frac{1, 1})}, "flags": Flags{}},
+						Case{"doc": Doc{ch(Frac{n, T}), rs(Frac{1, 1})}, "flags": Flags{}, "tracks": 2})
+				}
+			}
 			for _, dg := range []string{"4473924", "4473925", "4473926", "5000000", "8947849", "10000000", "44739243", "100000000000", "18446744073709551616", "99999999999999999999999999"} {
 				cases = append(cases, Case{"absurd": dg, "rest": false}, Case{"absurd": dg, "rest": true, "tracks": 2})
 			}
